@@ -65,6 +65,27 @@ def build_history(ctx, sess, n_parse, n_ops, kinds=('and', 'or', 'not'), battery
                 if reg is not None:
                     regs.append(reg)
                     steps.append((k, (x, y), reg))
+    # absorption first, the complement afterwards (a conjunction equal to one of its operands, then the other operand with that operand's
+    # negation; dually for or), in both operand orders, over every kind of variable
+    if 'and' in kinds and 'or' in kinds and 'not' in kinds:
+        for p_, q_ in (("platform_machine == 'p'", "platform_machine == 'q'"), ("'p' in platform_system", "extra == 'q'"), ("platform_release < 'p'", "platform_release >= 'q'"),
+                       ("python_full_version >= '3.8'", "python_full_version < '3.6'"), ("extra == 'p'", "extra == 'q'")):
+            a, b = sess.parse(p_)[0], sess.parse(q_)[0]
+            if a is None or b is None:
+                continue
+            x, _ = sess.op('or', a, b)
+            seq = [('and', x, a)]
+            na, _ = sess.op('not', a)
+            nx, _ = sess.op('not', x)
+            seq += [('and', x, na), ('and', b, x), ('and', na, x), ('or', nx, a), ('or', na, nx), ('or', nx, na)]
+            regs += [r_ for r_ in (a, b, x, na, nx) if r_ is not None]
+            for k, u, v in seq:
+                if u is None or v is None:
+                    continue
+                reg, r = sess.op(k, u, v)
+                if reg is not None:
+                    regs.append(reg)
+                    steps.append((k, (u, v), reg))
     # boundary battery: all ordered pairs of the six comparisons of one key against ONE value, and neighbouring
     # values, under and / or: ranges that touch at a bound with every combination of inclusive / exclusive ends
     if battery and ('and' in kinds or 'or' in kinds):
